@@ -83,7 +83,12 @@ def chk_point(sec_hex, k, lite=False):
             if k is not None:
                 nodes.append(("prv-other-flag", PrvKeyNode(key=k.to_bytes(32, "big"), chain_code=b"\x11" * 32, testnet=not testnet)))
         for nk, node in nodes:
-            w = BaseWallet(master=node, testnet=testnet)
+            stw, w = attempt(lambda: BaseWallet(master=node, testnet=testnet))
+            if stw != "ok":
+                if nk.endswith("other-flag"):
+                    continue          # refusing a wallet over a node of the other network is a legitimate answer to contradictory input
+                viols.append(V("%s:BaseWallet:%s:refused" % (P, nk), "BaseWallet(master=<%s node>, testnet=%r) raised %s" % (nk, testnet, w)))
+                continue
             for kind in KINDS:
                 st, a = attempt(getattr(w, kind + "_address"), node)
                 n += 1
